@@ -39,7 +39,7 @@ def analyse(html, not_cited=False, renamed=False):
         # entries numbered 1..n (or consistently renamed) in order of first use
         used = [t for t, _ in sorted(first_call.items(), key=lambda kv: kv[1][0])]
         listed_used = [i for i in entry_ids if i in first_call]
-        if used != listed_used and not [p for p in probs if p[0].endswith("target-missing")]:
+        if used != listed_used and not [p for p in probs if p[0].endswith("target-missing")] and not (kind == "citation" and not_cited):     # a 'not cited' mention is a first use that leaves no call in the HTML
             probs.append(("%s-order" % kind, "entries %r are not in order of first use %r" % (listed_used, used)))
         nums = [i.split(":", 1)[1] for i in entry_ids]
         if nums and not renamed and all(n.isdigit() for n in nums) and [int(n) for n in nums] != list(range(1, len(nums) + 1)):
@@ -72,7 +72,7 @@ def make_case(L):
         oi = idx % len(OPTS); idx //= len(OPTS); wi = idx % len(WRAP); idx //= len(WRAP)
         combo = []
         for _ in range(L): combo.append(idx % n); idx //= n
-        if L == 3 and len(set(combo)) < 3: return (None, [], dict(skipped=1))
+        if L >= 3 and len(set(combo)) < L: return (None, [], dict(skipped=1))
         body = b"".join(F[i] for i in combo[::-1])
         oname, ext, meta = OPTS[oi]; wname, w = WRAP[wi]
         doc = meta + (w % body) + DEFS
@@ -102,7 +102,7 @@ def run(tier):
                 "LaTeX: every \\autoref has a \\label; distinct = distinct HTML outputs" % len(F))
     rep.assumptions = ["ids need not be unique (two headings with the same title share an id by design)", "an unresolved reference left as literal text is not judged", "libc rand() is seeded by the harness before each conversion"]
     mmd.so_path(); dl = core.deadline_s(tier)
-    for L in ((1, 2) if tier == "quick" else (1, 2, 3)):
+    for L in ((1, 2, 3) if tier == "quick" else (1, 2, 3, 4)):
         case, n = make_case(L)
         res = pmap.pmap(n, case, deadline_s=dl * 0.9)
         pmap.fold(rep, "fragments-len%d" % L, n, res, "fragment sequences of length %d x 5 wrappers x 6 option sets" % L)
